@@ -122,6 +122,21 @@ class _RefPoints(frames._Generic):
     def __init__(self, owner, f):
         self.owner, self.f = owner, f
 
+    @property
+    def shape(self):
+        """(number of reference points of the group, 3).  The number is characterised by: 0 <= n <= M; n = 0 iff no row of the table has the group's
+        value (a Skolem witness for n >= 1)"""
+        o = self.owner
+        n, w, q = z3.Int("n_ref_points_of_group"), z3.Int("ref_point_witness"), z3.Int("q_ref")
+        fz = sym.real(sym.to_z3(self.f))
+        ctx().assume(z3.And(n >= 0, n <= o.M))
+        ctx().assume(z3.Implies(n >= 1, z3.And(w >= 0, w < o.M, o.feat(w) == fz)))
+        ctx().assume(z3.ForAll([q], z3.Implies(z3.And(q >= 0, q < o.M, o.feat(q) == fz), n >= 1)))
+        return (SV(n), 3)
+
+    def __sym_len__(self):
+        return self.shape[0]
+
     def __generic_for__(self, interp, st, env):
         from vfw.models import kernels, npm
         o = self.owner
@@ -488,6 +503,8 @@ EXPLANATION = ("Inside-predicates of remove_out_of_bounds_particles (both bounda
 ASSUMPTIONS = ["conventions where the statement is silent: inside means 0 <= c-b and c+b < dim with b = 0 ('center') or ceil(box/2) ('whole'); trimming keeps start <= x,y,z <= end on extraction positions; mask voxel of a particle is trunc(pos); within the radius is <=",
                "ioutils.dimensions_load returns a table with one row per tomogram (assumed; exercised by the bounded stand-in)",
                "scipy KDTree.query_ball_point returns exactly the indices within distance <= r (bounded stand-in compares with brute force)",
+               "the number of reference points of a group (`.shape[0]` of the selection) is characterised by: 0 <= n <= M and n = 0 iff no row carries the group's value",
+               "the particle table carries the default row labels 0..n-1 (requires of the table model; tables with other labels are exercised by the bounded run only)",
                "cryomap.binarize returns a 0/1 array of the mask's shape; Motl.get_motl_subset / remove_feature / get_unique_values are used through their contracts (C08); numpy boolean-mask selection and np.where(mask)[0] keep the masked rows in order"]
 
 
